@@ -9,6 +9,9 @@ PrefixesNone == {<<>>}
 \* if, ifdef, ifndef, ifopt, elseif, else, endif, ifend, IfDef, region
 PrefixesCond == {<<105, 102>>, <<105, 102, 100, 101, 102>>, <<105, 102, 110, 100, 101, 102>>, <<105, 102, 111, 112, 116>>, <<101, 108, 115, 101, 105, 102>>, <<101, 108, 115, 101>>, <<101, 110, 100, 105, 102>>, <<105, 102, 101, 110, 100>>, <<73, 102, 68, 101, 102>>, <<114, 101, 103, 105, 111, 110>>}
 
+\* separator lines: ten or more equal punctuation characters
+PrefixesSep == {<<45,45,45,45,45,45,45,45,45,45>>, <<61,61,61,61,61,61,61,61,61,61>>, <<42,42,42,42,42,42,42,42,42,42,42>>, <<45,45,45,45,45,45,45,45,45>>}
+
 VARIABLES body, phase, plen
 vars == <<body, phase, plen>>
 Init == body \in Prefixes /\ phase = "gen" /\ plen = Len(body)
